@@ -6,4 +6,6 @@ CONSTANTS
   PidOps = {}
   Sigs = {}
   JobsOpts = {}
+  KillLNums = {}
+  FgSlots = {}
   StartWith = "none"
